@@ -58,6 +58,7 @@ type ScnCfg struct {
 	Lookups    []string       `json:"lookups"` // names to look up after the start, in this order
 	Dup        []int          `json:"dup"`     // indexes of comps registered a second time (same instance)
 	Trace      bool           `json:"trace"`   // record the calls the factory makes on its singleton registry
+	Twice      bool           `json:"twice"`   // start a second App on the SAME component instances; both starts must look alike
 }
 
 type Event struct {
@@ -417,6 +418,7 @@ type Result struct {
 	Traced   bool        `json:"traced"`   // the registry tracer could be installed
 	Trace    []TrEv      `json:"trace"`    // registry calls during Run
 	TraceAft []TrEv      `json:"traceaft"` // registry calls during the lookups
+	First    *Result     `json:"first,omitempty"` // the first start, when a second start on the same instances differed from it
 }
 
 // ---- registry tracer -------------------------------------------------------------------------------------
@@ -590,6 +592,38 @@ func RunScenario(cfg *ScnCfg) (res Result) {
 		s.Origs[okey(reflect.ValueOf(insts[i]))] = c.Rank
 	}
 	s.Instances = insts
+	if !cfg.Twice {
+		return runOnce(cfg, s, insts)
+	}
+	// the first of two starts runs without the lookups: they create lazy components and so fill fields of the shared
+	// instances that the second start would then see already set
+	c1 := *cfg
+	c1.Lookups = nil
+	res = runOnce(&c1, s, insts)
+	if res.Outcome == "ok" || res.Outcome == "err" {
+		// a second container over the same instances (ioc.Register + repeated ioc.Run): nothing of the first start may
+		// leak into the second one, so it must be observed exactly like the first
+		first := res
+		s.Log, s.NextP, s.Proxies, s.EarlyMade = nil, 0, map[uintptr][2]int{}, map[[2]int]any{}
+		for _, in := range insts {
+			if bd, ok := in.(Based); ok {
+				bd.WxBase().Got = nil
+			}
+		}
+		res = runOnce(cfg, s, insts)
+		a, _ := json.Marshal([]any{first.Outcome, first.Log, first.Fields, first.Trace})
+		b, _ := json.Marshal([]any{res.Outcome, res.Log, res.Fields, res.Trace})
+		if string(a) != string(b) {
+			res.ErrText = "second start differs from the first: first " + first.Outcome + " / second " + res.Outcome
+			res.Outcome = "restart-differs"
+			res.First = &first
+		}
+	}
+	return
+}
+
+func runOnce(cfg *ScnCfg, s *Scn, insts []any) (res Result) {
+	res.ID = cfg.ID
 	var comps []any
 	order := cfg.RegOrder
 	if len(order) == 0 {
